@@ -29,7 +29,7 @@ def MASKS := ["022", "027", "077"]
 def FILES := ["f1", "f2"]
 /-- 10 = `MIN_INTERNAL_FD`; never the target of `fdd` (see the harness) -/
 def FDS := ["3", "4", "5", "20", "10"]
-def LIMITS := ["16", "18", "unlimited"]
+def LIMITS := ["16", "18", "unlimited", "4"]
 
 /-- conditions the `trap` / `raise` ops range over (TSTP/TTIN/TTOU are only watched) -/
 def opConds : List String := ["EXIT", "INT", "QUIT", "TERM", "URG", "USR1"]
@@ -74,7 +74,8 @@ def parseOp (t : String) : Option Op :=
     let c ← parseCond s
     if c = 0 then none else pure (.raise c)
   | ["bg"] => some .bg
-  | ["nofile", v] => do guardIn v LIMITS; pure (.nofile v)
+  | ["yield"] => some .yield
+  | ["nofile", v] => do guardIn v LIMITS; pure (.nofile (if v == "unlimited" then none else v.toNat?))
   | ["exit", n] => do guardIn n ["0", "3", "7"]; pure (.exit (← n.toNat?))
   | _ => none
 
@@ -124,14 +125,16 @@ def parseItems : List String → Case → Option Case
         parseItems rest { c with kinds := c.kinds ++ [k] }
       | "P" => do
         let op ← parseOp body
-        if isExit op then none else parseItems rest { c with pro := c.pro ++ [op] }
+        if isExit op ∨ op = .yield then none else parseItems rest { c with pro := c.pro ++ [op] }
       | "M" => do
         let op ← parseOp body
-        if isSilent op then parseItems rest { c with mid := setMid c.mid 0 op } else none
+        if isSilent op ∧ op ≠ .yield then parseItems rest { c with mid := setMid c.mid 0 op } else none
       | "N" => do
         let op ← parseOp body
-        if isSilent op then parseItems rest { c with mid := setMid c.mid 1 op } else none
-      | "C" => do parseItems rest { c with child := c.child ++ [← parseOp body] }
+        if isSilent op ∧ op ≠ .yield then parseItems rest { c with mid := setMid c.mid 1 op } else none
+      | "C" => do
+        let op ← parseOp body
+        if op = .yield then none else parseItems rest { c with child := c.child ++ [op] }
       | "W" => do
         let op ← parseOp body
         if isSilent op ∧ op ≠ .bg then parseItems rest { c with during := c.during ++ [op] } else none
@@ -179,7 +182,7 @@ def parseXOp (ws : List String) : Option XOp :=
   | ["sigaction", s, d] => do pure (.call (.sigaction (← parseSig s) (← parseDisp d)))
   | ["block", s] => do pure (.call (.sigmask true (← parseSig s)))
   | ["unblock", s] => do pure (.call (.sigmask false (← parseSig s)))
-  | ["rlimit", v] => do guardIn v XLIMITS; pure (.call (.setrlimit v))
+  | ["rlimit", v] => do guardIn v XLIMITS; pure (.call (.setrlimit (if v == "unlimited" then none else v.toNat?)))
   | _ => none
 
 def parseXItem (item : String) : Option (Nat × XOp) :=
